@@ -73,6 +73,14 @@ def real_outputs(inp):
     except Exception as e:
         ways.append(('ctor-bytes', e))
     try:
+        ways.append(('parse_all-generator', mido.parse_all(b for b in inp)))
+    except Exception as e:
+        ways.append(('parse_all-generator', e))
+    try:
+        ways.append(('ctor-iterator', list(mido.Parser(iter(inp)))))
+    except Exception as e:
+        ways.append(('ctor-iterator', e))
+    try:
         p = mido.Parser()
         h = len(inp) // 2
         p.feed(bytearray(inp[:h]))
